@@ -174,12 +174,22 @@ func (aw *AsyncWorker) doBranchCommit(phaseCtxs *[]phaseTwoContext) {
 	}
 }
 
+// requeue puts a context back for a later attempt without ever blocking the commit worker: the run loop, the queue's
+// only consumer, may itself be waiting for this worker to take the next batch
+func (aw *AsyncWorker) requeue(phaseCtx phaseTwoContext) {
+	select {
+	case aw.commitQueue <- phaseCtx:
+	default:
+		go func() { aw.commitQueue <- phaseCtx }()
+	}
+}
+
 func (aw *AsyncWorker) dealWithGroupedContexts(resID string, phaseCtxs []phaseTwoContext) {
 	val, ok := aw.resourceMgr.GetCachedResources().Load(resID)
 	if !ok {
 		for i := range phaseCtxs {
 			aw.rePutBackToQueue.Add(1)
-			aw.commitQueue <- phaseCtxs[i]
+			aw.requeue(phaseCtxs[i])
 		}
 		return
 	}
@@ -188,7 +198,7 @@ func (aw *AsyncWorker) dealWithGroupedContexts(resID string, phaseCtxs []phaseTw
 	conn, err := res.db.Conn(context.Background())
 	if err != nil {
 		for i := range phaseCtxs {
-			aw.commitQueue <- phaseCtxs[i]
+			aw.requeue(phaseCtxs[i])
 		}
 		return
 	}
@@ -199,7 +209,7 @@ func (aw *AsyncWorker) dealWithGroupedContexts(resID string, phaseCtxs []phaseTw
 	if err != nil {
 		for i := range phaseCtxs {
 			aw.rePutBackToQueue.Add(1)
-			aw.commitQueue <- phaseCtxs[i]
+			aw.requeue(phaseCtxs[i])
 		}
 		return
 	}
@@ -208,7 +218,7 @@ func (aw *AsyncWorker) dealWithGroupedContexts(resID string, phaseCtxs []phaseTw
 		phaseCtx := phaseCtxs[i]
 		if err := undoMgr.BatchDeleteUndoLog([]string{phaseCtx.Xid}, []int64{phaseCtx.BranchID}, conn); err != nil {
 			aw.rePutBackToQueue.Add(1)
-			aw.commitQueue <- phaseCtx
+			aw.requeue(phaseCtx)
 		}
 	}
 }
